@@ -83,12 +83,14 @@ Definition m_flip (d : dty) (n : Z) (c : list Z) : res tarr :=
 Definition roll_axis_ok (d : dty) (n sh : Z) : res bool :=
   rmap truthy (g_roll_axis_ok (dty_pyv d) (VInt sh) (VInt n)).
 
-(* scalar shift, one axis; n = a.shape[ax].  The scalar became an element of np.full(...) (int64) *)
+(* scalar shift, one axis; n = a.shape[ax].  The scalar became an element of np.full(len(axis), shift):
+   a NumPy scalar of type np_int_type shift (int64; uint64 for a shift in 2^63 .. 2^64-1) *)
 Definition m_roll (d : dty) (n sh : Z) (c : list Z) : res tarr :=
   ok <- roll_axis_ok d n sh ;;
   if negb ok then guard_exc g_roll_guard
   else
-    match (t <- (if s_roll_scalar_shift_is_np64 then s_roll_add_np else s_roll_add_py) (mkT d c) sh ;;
+    match (t <- (if s_roll_scalar_shift_is_np64 then (fun a k => s_roll_add_np a (np_int_type k) k)
+                 else s_roll_add_py) (mkT d c) sh ;;
            s_roll_mod t n) with
     | Raise TypeError => s_roll_handler d (mkT d c)
     | r => r
